@@ -7,7 +7,8 @@ Every definition mirrors the Python code AS IT IS; the anchors are
   ffcx/ir/representation.py      _compute_integral_ir   (coefficient_offsets, original_constant_offsets)
                                  _compute_expression_ir (coefficient_offsets, original_coefficient_positions,
                                                          entity_type from (tdim, pdim), constant offsets)
-                                 _compute_form_ir       (subdomain id tuples, 'otherwise' ↦ -1, rejection of negative user ids)
+                                 _compute_form_ir       (subdomain id tuples, 'otherwise' ↦ -1, rejection of negative user ids and of
+                                                         ids > 2³¹−1, commit 9a772cd)
   ffcx/codegeneration/common.py  integral_data, tensor_sizes
   ffcx/codegeneration/C/form.py  form_integrals / form_integral_ids / form_integral_offsets initialisers
   ffcx/codegeneration/C/expression.py   ufcx_expression fields
@@ -262,12 +263,20 @@ def SubId.isNegative : SubId → Bool
   | .otherwise => false
   | .num i => decide (i < 0)
 
+/-- `sid != "otherwise" and sid > 2**31 - 1` (commit 9a772cd: `ufcx_form.form_integral_ids` is an
+array of C `int`) -/
+def SubId.tooLarge : SubId → Bool
+  | .otherwise => false
+  | .num i => decide (i > 2147483647)
+
 /-- One iteration of the `for itg_index, itg_data in enumerate(form_data.integral_data)` loop:
-`if any(sid != "otherwise" and sid < 0 for sid in itg_data.subdomain_id): raise ValueError(...)`
-BEFORE 'otherwise' is mapped to -1; then the three dict-of-lists are extended (KeyError for an
+`if any(sid != "otherwise" and sid < 0 for sid in itg_data.subdomain_id): raise ValueError(...)`, then
+`if any(sid != "otherwise" and sid > 2**31 - 1 for sid in itg_data.subdomain_id): raise ValueError(...)`,
+both BEFORE 'otherwise' is mapped to -1; then the three dict-of-lists are extended (KeyError for an
 integral type that is not a key). -/
 def formIRStep (groups : List Group) (d : ItgData) : Except String (List Group) :=
   if d.subIds.any SubId.isNegative then .error "Integral subdomain IDs must be non-negative."
+  else if d.subIds.any SubId.tooLarge then .error "Integral subdomain IDs must fit a 32-bit signed integer."
   else if d.itype < groups.length then .ok (modifyAt (· ++ d.entries) d.itype groups)
   else .error "KeyError: integral type"
 
